@@ -533,8 +533,34 @@ fn avail_case(line: &str) -> String {
     out
 }
 
+/// probe: Pause is queued BEFORE a client connects, then ONE real poll batch is processed in epoll's own order
+/// (Stepped::turn mirrors poll_with). Prints the batch order, whether the loop is paused and how many
+/// connections were dispatched.
+fn probe_pause_batch() {
+    let rt = tokio::runtime::Builder::new_current_thread().enable_time().start_paused(true).build().unwrap();
+    let _e = rt.enter();
+    let (poll, wq) = Stepped::poll_and_queue().unwrap();
+    let l = std::net::TcpListener::bind("127.0.0.1:0").unwrap();
+    l.set_nonblocking(true).unwrap();
+    let addr = l.local_addr().unwrap();
+    let (ah, _srv, mut end) = v::link(0, &wq, 10);
+    let mut st = Stepped::new(poll, &wq, vec![Listener::tcp(l)], vec![ah]).unwrap();
+    wq.wake(Cmd::Pause);
+    let _c = std::net::TcpStream::connect(addr).unwrap();
+    let (toks, _exit) = st.turn(Some(Duration::from_millis(0))).unwrap();
+    let mut n = 0;
+    while end.try_recv().is_some() {
+        n += 1;
+    }
+    println!("batch={:?} paused={} dispatched_after_pause={}", toks, st.paused(), n);
+}
+
 fn main() {
     let mode = std::env::args().nth(1).expect("mode");
+    if mode == "probe_pause_batch" {
+        probe_pause_batch();
+        return;
+    }
     std::panic::set_hook(Box::new(|_| {}));
     let stdin = io::stdin();
     let stdout = io::stdout();
